@@ -42,7 +42,8 @@ pub fn keypair<X: Sx>(r: &mut impl RngCore) -> (BBSplusSecretKey, BBSplusPublicK
     let n = 32 + (r.next_u32() % 33) as usize;
     let mut ikm = vec![0u8; n];
     r.fill_bytes(&mut ikm);
-    let info_len = [0usize, 0, 1, 17, 300][(r.next_u32() % 5) as usize];
+    // key_info lengths incl. the largest one the drafts allow (its 2-octet length prefix is then ff ff)
+    let info_len = [0usize, 0, 1, 17, 300, 255, 256, 65535][(r.next_u32() % 8) as usize];
     let mut info = vec![0u8; info_len];
     r.fill_bytes(&mut info);
     let kp = Kp::<X>::generate(&ikm, if info_len == 0 && r.next_u32() % 2 == 0 { None } else { Some(&info) }, None)
